@@ -270,4 +270,5 @@ func runWiden(c *engine.Ctx) {
 	runSplitPairs(c)
 	runArgs(c)
 	runValues(c)
+	runContract(c)
 }
